@@ -114,6 +114,65 @@ def sensitivity(argv):
     return 0 if missed == 0 else 1
 
 
+def _one_benign(args):
+    """apply a property-preserving change to a scratch copy, run the baseline tests and the quick checks named: none may alarm."""
+    import shutil
+    import tempfile
+    patch, pids, jobs = args
+    verif = os.path.dirname(os.path.dirname(os.path.abspath(__file__)))
+    repo = os.environ.get("VERIF_REPO", "/repo")
+    d = tempfile.mkdtemp(prefix="verif-ben.")
+    out = []
+    try:
+        shutil.copytree(os.path.join(repo, "websocket"), os.path.join(d, "repo", "websocket"),
+                        ignore=shutil.ignore_patterns("__pycache__"))
+        os.makedirs(os.path.join(d, "out"))
+        a = subprocess.run(["patch", "-p1", "-s", "-i", patch], cwd=os.path.join(d, "repo"), capture_output=True, text=True)
+        if a.returncode != 0:
+            return patch, [("-", "patch-failed", a.stdout + a.stderr)]
+        t = subprocess.run([sys.executable, "-m", "pytest", "-q", "-p", "no:cacheprovider", "-x", "websocket/tests"],
+                           cwd=os.path.join(d, "repo"), capture_output=True, text=True, timeout=180,
+                           env=dict(os.environ, PYTHONPATH=os.path.join(d, "repo")))
+        if t.returncode != 0:
+            out.append(("-", "baseline-tests-fail", t.stdout[-300:]))
+        env = dict(os.environ, VERIF_REPO=os.path.join(d, "repo"), VERIF_OUT=os.path.join(d, "out"), VERIF_JOBS=str(jobs))
+        for pid in pids:
+            c = subprocess.run([os.path.join(verif, "check"), pid, "quick"], capture_output=True, text=True, env=env, timeout=1500)
+            if c.returncode != 0 or "VIOLATION" in c.stdout or "HARNESS-ERROR" in c.stdout:
+                lines = [l for l in c.stdout.splitlines() if "clause=" in l and "KNOWN" not in l or "HARNESS" in l or "VIOLATION" in l]
+                out.append((pid, f"ALARM exit={c.returncode}", " | ".join(lines[:4])[:600]))
+        return patch, out
+    finally:
+        shutil.rmtree(d, ignore_errors=True)
+
+
+def benign(argv):
+    """Changes that keep every property (line shifts, import styles, function-local imports, other sources of
+    operating-system randomness, extra lines, reworked private helpers): no quick check may raise an alarm on them."""
+    verif = os.path.dirname(os.path.dirname(os.path.abspath(__file__)))
+    pats = [a for a in argv if not a.startswith("-") and not (a.startswith("C") and a[1:].isdigit())]
+    only = [a for a in argv if a.startswith("C") and a[1:].isdigit()]
+    files = sorted(glob.glob(os.path.join(verif, "selftest", "benign", "*.diff")))
+    files += sorted(glob.glob(os.path.join(verif, "seeded_benign", "*", "patch.diff")))
+    work = []
+    for f in files:
+        name = os.path.basename(f) if "selftest" in f else os.path.basename(os.path.dirname(f))
+        if pats and not any(p.lower() in name.lower() for p in pats):
+            continue
+        work.append((f, only or available_props(), 4))
+    alarms = 0
+    with cf.ThreadPoolExecutor(max_workers=4) as ex:
+        for patch, out in ex.map(_one_benign, work):
+            label = os.path.basename(patch) if "selftest" in patch else "seeded_benign/" + os.path.basename(os.path.dirname(patch))
+            if not out:
+                print(f"quiet    {label}", flush=True)
+            for pid, verdict, info in out:
+                print(f"{verdict:8s} {pid} {label}  {info}", flush=True)
+                alarms += 1
+    print(f"benign: {len(work)} property-preserving changes, {alarms} alarms")
+    return 0 if alarms == 0 else 1
+
+
 def known(argv):
     """Every listed known finding must still reproduce from its committed replay file on the current tree: a finding
     that no longer does is either repaired (then it belongs under 'fixed') or its replay is stale (refresh it with
@@ -159,6 +218,8 @@ def known(argv):
 def main(argv):
     if argv and argv[0] == "sensitivity":
         return sensitivity(argv[1:])
+    if argv and argv[0] == "benign":
+        return benign(argv[1:])
     if argv and argv[0] == "known":
         return known(argv[1:])
     if not argv or argv[0] != "determinism":
